@@ -262,6 +262,17 @@ Definition exit_meets_spec (o : exit_obs) : bool :=
     else e_status o =? 0
   end.
 
+(* ---- the output channel: what an --output-file holds after a run ----
+   [f_prev]: content before the run (None: no file); [f_rendering]: the bytes the same command line
+   writes to stdout; [f_observed]: the file afterwards *)
+Record file_obs := {
+  f_prev : option str;
+  f_rendering : str;
+  f_observed : str }.
+
+Definition file_agrees (o : file_obs) : bool :=
+  str_eqb (file_after (f_prev o) (f_rendering o)) (f_observed o).
+
 Fixpoint failing {A} (p : A -> bool) (i : nat) (l : list A) : list nat :=
   match l with
   | [] => []
